@@ -10,13 +10,13 @@ Local Open Scope Z_scope.
 
 Inductive cls :=
 | CUnknownKey      (* unknown keys are skipped, the reply is OK *)
-| CTextAtom        (* header / body / sent-date evaluation differs from the field semantics on this message *)
+| CSentDateTab     (* net/mail.ParseDate: a Date: value with a horizontal tab between its parts is not parsed *)
 | CQuotedSpace.   (* the command line is split with strings.Fields and re-joined: runs of blanks / tabs inside a quoted string collapse *)
 
 Definition cls_eqb (a b : cls) : bool :=
   match a, b with
-  | CUnknownKey, CUnknownKey
-  | CTextAtom, CTextAtom | CQuotedSpace, CQuotedSpace => true
+  | CUnknownKey, CUnknownKey | CSentDateTab, CSentDateTab
+  | CQuotedSpace, CQuotedSpace => true
   | _, _ => false
   end.
 
@@ -32,6 +32,9 @@ Definition backslash : ascii := "\"%char.
 Definition qchar_ok (c : ascii) : bool :=
   negb (Ascii.eqb c dq) && negb (Ascii.eqb c backslash) && negb (Ascii.eqb c CR) && negb (Ascii.eqb c LF).
 Definition string_ok (v : str) : bool := forallb qchar_ok v.
+(** RFC 5322 field-name: printable ASCII except ":" *)
+Definition field_name_ok (f : str) : bool :=
+  match f with [] => false | _ => forallb (fun c => (32 <? byte_of c)%N && (byte_of c <? 127)%N && negb (Ascii.eqb c colon) && negb (Ascii.eqb c dq) && negb (Ascii.eqb c backslash)) f end.
 Definition atom_char (c : ascii) : bool :=
   negb (is_space c) && negb (Ascii.eqb c dq) && negb (Ascii.eqb c lpar) && negb (Ascii.eqb c rpar)
   && negb (Ascii.eqb c backslash) && negb (Ascii.eqb c "{"%char) && negb (Ascii.eqb c "%"%char)
@@ -52,7 +55,7 @@ Fixpoint wf_key (k : key) : bool :=
   | KKeyword w | KUnkeyword w => atom_ok w
   | KSeq s | KUid s => set_ok s
   | KHdr _ v | KBody v | KText v => string_ok v
-  | KHeader f v => string_ok f && string_ok v
+  | KHeader f v => field_name_ok f && string_ok v
   | KLarger n | KSmaller n => numeral_ok n
   | KDate _ _ d => date_ok d
   | KNot k' => wf_key k'
@@ -72,18 +75,13 @@ Definition mb_ok (mb : list smsg) : bool :=
   && Spec.SeqSet.ascendingb (map s_uid mb) && forallb (fun m => 0 <? s_uid m) mb.
 
 (** ** classes *)
-(** model and field semantics agree for the text key [k] on every message *)
-Definition text_agree_on (mb : list smsg) (k : key) (im : Z * smsg) : bool :=
-  let m := to_msg mb im in
-  match k with
-  | KHdr h v => Bool.eqb (matches_header_or_body m (hdr_kw h) v) (spec_text_key k (snd im))
-  | KHeader f v => Bool.eqb (matches_header m f v) (spec_text_key k (snd im))
-  | KBody v => Bool.eqb (matches_header_or_body m KwBODY v) (spec_text_key k (snd im))
-  | KDate true c d => Bool.eqb (matches_sent_date m (print_date d) c) (spec_text_key k (snd im))
-  | _ => true
+(** the first Date: field of some message has a horizontal tab inside its (trimmed) value *)
+Definition date_has_tab (m : smsg) : bool :=
+  match field_values (s_text m) (S_ "Date") with
+  | v :: _ => existsb (Ascii.eqb tab) (trim_space v)
+  | [] => false
   end.
-Definition text_class (k : key) (mb : list smsg) : option cls :=
-  if forallb (text_agree_on mb k) (numbered mb) then None else Some CTextAtom.
+Definition sent_class (mb : list smsg) : option cls := if existsb date_has_tab mb then Some CSentDateTab else None.
 
 (** keys other than NOT / OR / parenthesised lists *)
 Definition simple_class (k : key) (mb : list smsg) : option cls :=
@@ -91,8 +89,8 @@ Definition simple_class (k : key) (mb : list smsg) : option cls :=
   | KAll => None
   | KHas _ | KUn _ | KNew | KKeyword _ | KUnkeyword _ => None   (* whole-flag comparison since fix 378938d *)
   | KSeq _ | KUid _ => None                                    (* RFC 3501 sets since fix 32751d9 *)
-  | KHdr _ _ | KHeader _ _ | KBody _ | KDate true _ _ => text_class k mb
-  | KText _ | KLarger _ | KSmaller _ | KDate false _ _ => None
+  | KHdr _ _ | KHeader _ _ | KBody _ | KText _ | KLarger _ | KSmaller _ | KDate false _ _ => None   (* proved since the header / sent-date fixes *)
+  | KDate true _ _ => sent_class mb
   | KUnknown _ => Some CUnknownKey
   | KGroup _ | KNot _ | KOr _ _ => None                        (* see key_class *)
   end.
